@@ -708,6 +708,27 @@ func c10LimitInputs(ctx *core.Ctx) []WorkItem {
 	}
 	// chunk records whose own length exceeds MaxRecordSize and whose compression-string length is large:
 	// the limit must be applied before anything is sized from the record
+	// ... and chunk / attachment records that are themselves small (within the limit, some shorter than
+	// their fixed fields) while a string length inside them is large: nothing may be sized from a
+	// length that the record cannot hold
+	for _, recLen := range []uint64{0, 8, 31, 32, 40, 100, c10Limit} {
+		for _, strLen := range []uint32{c10Limit + 1, 64 << 20, 1<<31 - 10} {
+			d := append([]byte(nil), hdr...)
+			d = append(d, refmcap.OpChunk)
+			d = binary.LittleEndian.AppendUint64(d, recLen)
+			d = append(d, make([]byte, 28)...)
+			d = binary.LittleEndian.AppendUint32(d, strLen)
+			d = append(d, []byte("lz4-and-then-nothing-more")...)
+			add(fmt.Sprintf("small-chunk-record-%d-compression-length-%d", recLen, strLen), d)
+			d = append([]byte(nil), hdr...)
+			d = append(d, refmcap.OpAttachment)
+			d = binary.LittleEndian.AppendUint64(d, recLen)
+			d = append(d, make([]byte, 16)...) // log time, create time
+			d = binary.LittleEndian.AppendUint32(d, strLen)
+			d = append(d, []byte("name-and-then-nothing-more")...)
+			add(fmt.Sprintf("small-attachment-record-%d-name-length-%d", recLen, strLen), d)
+		}
+	}
 	for _, recLen := range []uint64{c10Limit + 1, 1 << 30, 1 << 40} {
 		for _, compLen := range []uint32{c10Limit + 1, 64 << 20, 256 << 20, 1<<31 - 10} {
 			d := append([]byte(nil), hdr...)
